@@ -68,6 +68,9 @@ func ValidateCreateVestingAccount(fromAddress string, toAddress string, amount s
 	if err != nil {
 		return nil, nil, errors.Wrap(ErrParsing, errors.Wrapf(err, "create vesting account - to-address parsing error: %s", toAddress).Error())
 	}
+	if fromAccAddress.Equals(toAccAddress) {
+		return nil, nil, errors.Wrapf(ErrIdenticalAccountsAddresses, "create vesting account - from-address and to-address are identical: %s", toAddress)
+	}
 
 	return fromAccAddress, toAccAddress, nil
 }
